@@ -14,7 +14,7 @@ TRUST = ("Trusted base: the asherahverif shims (vsync/vatomic/Chan/vclock/vrand)
 K_TECH = "explicit-state breadth-first search over operation histories executed on the real SDK under a virtual clock (state = canonical dump of the real object graph), oracle on every transition and state"
 CHECKS = {
     "C01": ("model_checking", K_TECH,
-            "BFS over histories of encrypt/decrypt (long-lived and per-request sessions of two processes), clock ticks across the precision / revoke-check / expiry thresholds, out-of-band revocation, restart and session close, for several cache configurations; on every transition decrypt results are compared with the original payload and in every state every catalogued record is decrypted by a fresh SDK factory and by an independent reference decryptor over the metastore snapshot.", "6/C01"),
+            "BFS over histories of encrypt/decrypt (long-lived and per-request sessions of two processes), clock ticks across the precision / revoke-check / expiry thresholds, out-of-band revocation, restart and session close, for several cache configurations; on every transition decrypt results are compared with the original payload and in every state every catalogued record is decrypted by a fresh SDK factory and by an independent reference decryptor over the metastore snapshot. Fixed mini-runs add 1 MiB / 5 MiB payloads and factories configured with different AWS KMS regions (both plugins).", "6/C01"),
     "C03": ("model_checking", K_TECH + "; AEAD/KMS/allocator call monitors",
             "The same history space with monitors on every AEAD, KMS and secret-allocation call: one fresh data key per encrypt used once and wrapped once, no (key, nonce) repeated in a history (deterministic logged random source), payload only under data keys, data keys only under the partition's IK, IKs only under the SK, SK only to the KMS, and a byte-window leak scan of records, rows and log lines.", "6/C03"),
     "C04": ("model_checking", K_TECH,
@@ -28,13 +28,13 @@ CHECKS = {
     "C08": ("model_checking", "stateless schedule exploration of the real code under a controlled scheduler (preemption-bounded DFS + happens-before state caching)",
             "Every interleaving, up to the stated preemption bound, of 2-3 goroutines decrypting/encrypting/opening sessions against one factory "
             "with capacity-1/2 shared key caches of each eviction policy is executed on the real SDK; oracle: every operation succeeds with the right bytes, "
-            "no access to a destroyed secret, everything released after close.", "6/C08"),
+            "no access to a destroyed secret, everything released after close. Scenarios: eviction vs hit for every policy, encrypt/decrypt mixes, two SK generations, stale-entry refresh, session churn, session cache with one and with two holders of the evicted session, asynchronous eviction at capacity 100 (thorough).", "6/C08"),
     "C09": ("model_checking", K_TECH + "; tracking secret factory accounting",
-            "The same history space with a tracking SecretFactory: after every call data keys are released, with caching disabled nothing stays live, live secrets are exactly the open keys reachable from the caches (walker), at most one per key and cache and never above capacity, and after restart every secret of the closed factory was released exactly once and never touched again.", "6/C09"),
+            "The same history space with a tracking SecretFactory: after every call data keys are released, with caching disabled nothing stays live, live secrets are exactly the open keys reachable from the caches (walker), at most one per key and cache and never above capacity, and after restart every secret of the closed factory was released exactly once and never touched again; the same accounting on every error path of the fault space (<= 2-4 injected metastore/KMS/AEAD/allocator faults) and at the end of every interleaving of the session-cache eviction schedule harnesses.", "6/C09"),
     "C15": ("model_checking", "explicit-state breadth-first search over cache operation histories on the real cache against reference models",
-            "BFS over Set/Get/Delete/tick/Len/Close histories on 4 keys for lru/lfu/slru/tinylfu, capacities 1..6 and 99/100/101, with/without expiry, synchronous and asynchronous eviction (event goroutine under the controlled scheduler); each step compared with a reference model: values, Len, exact multiset of eviction callbacks, victims per the policy's definition, no panic/deadlock.", "6/C15"),
+            "BFS over Set/Get/Delete/tick/Len/Close histories on 4 keys for lru/lfu/slru/tinylfu, capacities 1..6 and 99/100/101, with/without expiry, synchronous and asynchronous eviction (event goroutine under the controlled scheduler); each step compared with a reference model: values, Len, exact multiset of eviction callbacks, victims per the policy's definition, no panic/deadlock; plus asynchronous eviction with two user goroutines and the event goroutine under the controlled scheduler (callbacks exactly once and delivered before Close returns).", "6/C15"),
     "C19": ("model_checking", "exhaustive enumeration of request sequences against a reference protocol automaton on the real handler",
-            "Every sequence of up to 5 (thorough: 6) requests over a 9-request alphabet plus end-of-stream is sent through an in-memory stream into the real AppEncryption.Session (memory metastore, static KMS); one response per request, protocol state enforced, round-trips verified on a second stream, no panic.", "6/C19"),
+            "Every sequence of up to 5 (thorough: 6) requests over a 9-request alphabet plus end-of-stream is sent through an in-memory stream into the real AppEncryption.Session (memory metastore, static KMS); one response per request, protocol state enforced, round-trips verified on a second stream, no panic; plus two concurrent streams on one AppEncryption (with and without session caching) under the controlled scheduler.", "6/C19"),
 }
 
 CHECKS.update({
@@ -47,7 +47,7 @@ CHECKS.update({
     "C12": ("fault_enumeration", "deviation-bounded exhaustive enumeration of failing memory primitives over a shadow page table",
             "Scripts of New/CreateRandom/WithBytes/nested/WithBytesFunc/Reader/Close/Close for both implementations with every placement of up to 2 (thorough: 3) failing primitives (Alloc, Lock, Protect, Unlock, Free, random source): error instead of a degraded secret, no page of a failed creation left mapped or locked, secret bytes zero at unlock, failed open leaves the page inaccessible and the secret usable, failed Close retryable, in-use counter balanced.", "6/C12"),
     "C13": ("model_checking", "explicit-state breadth-first search (closed state space) over metastore operations against a reference table, through semantic fakes",
-            "BFS over Store/Load/LoadLatest on 2 ids x 2 (thorough: 3) stamps x 4 record variants until no new table is reachable, for the memory, SQL (3 dialects + default) and DynamoDB v1/v2 metastores (table name / region suffix variants); the SQL fake parses and executes the statements under the documented schema, the DynamoDB fake evaluates conditions, key conditions, projection, ordering and is eventually consistent unless ConsistentRead is set; every slot is read back after every transition.", "6/C13"),
+            "BFS over Store/Load/LoadLatest on 2 ids x 2 (thorough: 3) stamps x 4 record variants until no new table is reachable, for the memory, SQL (3 dialects + default) and DynamoDB v1/v2 metastores (table name / region suffix variants); the SQL fake parses and executes the statements under the documented schema, the DynamoDB fake evaluates conditions, key conditions, projection, ordering and is eventually consistent unless ConsistentRead is set; every slot is read back after every transition; DynamoDB variants with transient read errors (a retry must not become a stale read); plus every interleaving of 2-3 concurrent Stores of one key (and a reader) on the in-memory metastore.", "6/C13"),
     "C14": ("model_checking", "stateless schedule exploration with context switches placed at external calls (unbounded for 2 processes) + happens-before caching",
             "2-3 processes with their own factories race one encrypt each (thorough: two) over one spy metastore/KMS from cold, SK-only, expired, revoked-IK and revoked-SK states (plus a clock crossing of the precision bucket): every returned record names stored rows and is decryptable by every process and by the reference, unsaved keys of refused inserts are released, the store only grew.", "6/C14"),
     "C16": ("model_checking", "stateless schedule exploration of the real code under a controlled scheduler (preemption-bounded DFS + happens-before state caching)",
@@ -57,7 +57,7 @@ CHECKS.update({
     "C18": ("exploration", "exhaustive product of input shapes checked in both directions against an independent reference implementation written from the documentation",
             "Payload shapes x partition ids x timestamps x revoked x plain/suffixed hierarchy x static/AWS KMS x storage channel (memory, SQL text, DynamoDB v1/v2 items): the reference decodes the bytes the SDK stored with its own decoders (exact JSON keys, base64, ciphertext||tag||nonce, key-id format) and decrypts; the SDK decrypts rows and records the reference wrote; protobuf mapping through the real sidecar handler; v1<->v2 DynamoDB item exchange.", "6/C18"),
     "C20": ("model_checking", K_TECH + "; repetition probes from every state",
-            "From every state of the history space, every succeeding encrypt/decrypt on a long-lived session is repeated immediately, 61 s, 599 s and 601 s later and the metastore/KMS calls of the repetition are counted; the KMS log of every probe history is checked for two unwraps of one system key by one factory within an interval; with caching disabled every repetition must hit the metastore and leave no live secret.", "6/C20"),
+            "From every state of the history space, every succeeding encrypt/decrypt on a long-lived session is repeated immediately, 61 s, 599 s and 601 s later and the metastore/KMS calls of the repetition are counted; the KMS log of every probe history is checked for two unwraps of one system key by one factory within an interval; with caching disabled every repetition must hit the metastore and leave no live secret; plus schedules in which two goroutines hit a stale system key / shared intermediate key together (one unwrap, one record read).", "6/C20"),
 })
 
 NOT_YET = {}
